@@ -101,6 +101,10 @@ def build_instrumented(timeout=1800):
     env = kv.env_base()
     env["CARGO_TARGET_DIR"] = target
     env["RUSTFLAGS"] = "-C instrument-coverage"
+    # instrumented build products that RUN during the build (the proc-macro crate) write a profile
+    # too: keep it out of the repository under test
+    os.makedirs(_cov_dirs()[1], exist_ok=True)
+    env["LLVM_PROFILE_FILE"] = os.path.join(_cov_dirs()[1], "build_%p_%m.profraw")
     with kv.Lock("cov.lock"):
         kv.link_repo()
         p = subprocess.run(["cargo", "+nightly", "build", "--offline", "-q"], cwd=kv.harness_crate(),
